@@ -738,6 +738,50 @@ fn run_optional_escapes(ch: &mut Chooser) -> Outcome {
     }
 }
 
+/// Operators ECMAScript defines but the translator need not support (`>>>`, `**`): rejecting them is
+/// fine, accepting them requires the ECMAScript value.
+fn run_optional_operators(ch: &mut Chooser) -> Outcome {
+    let (text, value): (String, i64) = match ch.below(3) {
+        0 | 1 => {
+            ch.label("operator-unsigned-right-shift");
+            let a = *ch.pick(&[-8i64, -1, -2147483648, -123456, 64, 7, 0, 2147483647, -3]);
+            let n = ch.below(32) as i64;
+            // ToUint32(a) >>> (n & 31)
+            let v = ((a as i32) as u32 >> n) as i64;
+            let a_txt = if a < 0 { format!("({a})") } else { a.to_string() };
+            (if ch.chance(1, 2) { format!("{a_txt} >>> {n}") } else { format!("({a_txt} >>> {n}) + 0") }, v)
+        }
+        _ => {
+            ch.label("operator-exponentiation");
+            let a = ch.range(-4, 6);
+            let n = ch.below(6) as u32;
+            (format!("({a}) ** {n}"), a.pow(n))
+        }
+    };
+    let qml = format!("import qmluic.QtWidgets\nQWidget {{\n    VSrc {{\n        d0: 0.5\n        i1: {text}\n    }}\n}}\n");
+    let t = translate(&qml, "T", Mode::Generate);
+    let detail = |why: &str| json!({"qml": qml, "why": why, "ui": t.ui_str(), "diagnostics": t.diag_summary(), "panic": t.panic});
+    if let Some(p) = &t.panic {
+        return Outcome::fail("c03-panic", format!("translator panicked: {p}"), detail(p));
+    }
+    if !t.accepted() {
+        ch.label("optional-operator-rejected");
+        return Outcome::pass(None).count("optional_operator_expressions_rejected", 1);
+    }
+    let f = match form::decode(t.ui.as_deref().unwrap_or_default()) {
+        Ok(f) => f,
+        Err(e) => return Outcome::fail("c03-undecodable", e.clone(), detail(&e)),
+    };
+    let got = f.root.children.first().and_then(|c| c.obj.prop("i1")).map(|p| p.value.clone());
+    match got {
+        Some(FValue::Number(n)) if n.trim().parse::<f64>().ok() == Some(value as f64) => Outcome::pass(Some(stable_hash(&text))).count("optional_operator_expressions_accepted_and_checked", 1),
+        other => {
+            let why = format!("i1: {text} embeds {other:?}, the expression denotes {value}");
+            Outcome::fail("c03-wrong-optional-operator", why.clone(), detail(&why))
+        }
+    }
+}
+
 pub fn run(env: &Env, known: &Known, started: Instant, replayed: u64, replay_violations: Vec<Violation>) -> i32 {
     let cfg = ChoiceRun { env, pid: PID, part: "constants", cases: env.tier.pick(96_000, 700_000), max_len: 1500, known };
     let mut rr = run_choices(&cfg, run_valid);
@@ -753,9 +797,13 @@ pub fn run(env: &Env, known: &Known, started: Instant, replayed: u64, replay_vio
     let r4 = run_choices(&cfg, run_optional_escapes);
     rr.stats.merge(r4.stats);
     rr.violations.extend(r4.violations);
+    let cfg = ChoiceRun { env, pid: PID, part: "optional-operators", cases: env.tier.pick(3_000, 30_000), max_len: 16, known };
+    let r5 = run_choices(&cfg, run_optional_operators);
+    rr.stats.merge(r5.stats);
+    rr.violations.extend(r5.violations);
     let ev = Evidence {
         env, pid: PID, level: "exploration",
-        rule: "(e) string literals built from escape forms ECMAScript defines but the translator need not support (identity escapes such as \\/ and \\-, line continuations with LF/CRLF/CR/LS/PS, legacy octal escapes of one to three digits, \\0 before 8/9): rejecting them is fine, accepting them requires the ECMAScript value in the .ui. (a) literal spellings generated value-first: integers 0..2^63-1 as decimal, 0x/0X, 0o/0O, 0b/0B, legacy octal, legacy leading-zero decimal, with _ separators; doubles as d.d / .d / d. / exponent forms; strings with raw characters and \\n-style, \\xHH, \\uHHHH, \\u{H} escapes in both quote styles, over ASCII, quotes, backslashes, controls, Latin-1, BMP, astral; (b) constant expressions of depth <= 4 over those literals with unary + - ~ !, + - * / %, & ^ |, << >>, all comparisons on ints/doubles/strings/bools, string +, flag sets, string lists with/without qsTr, object references, each on a property of matching type (int, uint, double, bool, QString, enum, flags, QStringList, pointer; ~15 bindings per object); (c) undefined constants (division/remainder by zero, results beyond i64 incl. by << and unary minus, negative or >= 64 shift counts) and (d) integer constants on double properties / double constants on int properties, one per document, which must be rejected with an error inside the binding. Oracle: the harness' own evaluator (checked i64, IEEE doubles, Unicode strings) vs. the value decoded from the .ui (integers as exact decimal numerals, doubles bit-equal after parsing). Non-trivial = non-canonical spelling, >= 2 operator classes, or an undefined/typing case; distinct by text hash.",
+        rule: "(f) the operators >>> and ** (defined by ECMAScript, not supported by the translator): rejecting is fine, accepting requires the ECMAScript value. (e) string literals built from escape forms ECMAScript defines but the translator need not support (identity escapes such as \\/ and \\-, line continuations with LF/CRLF/CR/LS/PS, legacy octal escapes of one to three digits, \\0 before 8/9): rejecting them is fine, accepting them requires the ECMAScript value in the .ui. (a) literal spellings generated value-first: integers 0..2^63-1 as decimal, 0x/0X, 0o/0O, 0b/0B, legacy octal, legacy leading-zero decimal, with _ separators; doubles as d.d / .d / d. / exponent forms; strings with raw characters and \\n-style, \\xHH, \\uHHHH, \\u{H} escapes in both quote styles, over ASCII, quotes, backslashes, controls, Latin-1, BMP, astral; (b) constant expressions of depth <= 4 over those literals with unary + - ~ !, + - * / %, & ^ |, << >>, all comparisons on ints/doubles/strings/bools, string +, flag sets, string lists with/without qsTr, object references, each on a property of matching type (int, uint, double, bool, QString, enum, flags, QStringList, pointer; ~15 bindings per object); (c) undefined constants (division/remainder by zero, results beyond i64 incl. by << and unary minus, negative or >= 64 shift counts) and (d) integer constants on double properties / double constants on int properties, one per document, which must be rejected with an error inside the binding. Oracle: the harness' own evaluator (checked i64, IEEE doubles, Unicode strings) vs. the value decoded from the .ui (integers as exact decimal numerals, doubles bit-equal after parsing). Non-trivial = non-canonical spelling, >= 2 operator classes, or an undefined/typing case; distinct by text hash.",
         assumptions: vec![
             "documents the translator rejects are counted, not judged (acceptance is C05's subject); expressions the translator does not treat as constant are counted as not embedded (C04's subject)".into(),
             "non-finite double results and string orderings where UTF-16 and code-point order differ are skipped".into(),
